@@ -5,7 +5,7 @@ VERIF = os.path.dirname(os.path.dirname(os.path.abspath(__file__)))
 ALL = [f"C{i:02d}" for i in range(1, 21)]
 
 # commits in /repo whose message starts with `verif-hook:` (cfg-guarded verification hooks)
-HOOK_COMMITS = ["12ac8be", "d787177", "746a7e5", "18a6913"]
+HOOK_COMMITS = ["12ac8be", "d787177", "746a7e5", "85f7995"]
 
 CLAIMS = {
  "C04": dict(
